@@ -39,6 +39,7 @@ import (
 // Algorithm numbers (IANA DNS Security Algorithm Numbers).
 const (
 	RSASHA1         = 5
+	RSASHA1NSEC3    = 7 // RSASHA1-NSEC3-SHA1: the same algorithm under another number (RFC 5155 §2)
 	RSASHA256       = 8
 	RSASHA512       = 10
 	ECDSAP256SHA256 = 13
@@ -358,7 +359,7 @@ func VerifyData(k *Key, alg uint8, data, sig []byte) error {
 		return ErrAlgorithm
 	}
 	switch alg {
-	case RSASHA1, RSASHA256, RSASHA512:
+	case RSASHA1, RSASHA1NSEC3, RSASHA256, RSASHA512:
 		pk, err := RSAPublic(k.Public)
 		if err != nil {
 			return err
@@ -366,7 +367,7 @@ func VerifyData(k *Key, alg uint8, data, sig []byte) error {
 		var h crypto.Hash
 		var d []byte
 		switch alg {
-		case RSASHA1:
+		case RSASHA1, RSASHA1NSEC3:
 			x := sha1.Sum(data)
 			h, d = crypto.SHA1, x[:]
 		case RSASHA256:
